@@ -12,8 +12,9 @@ def prefix_key(hist):
 
 
 class ModReplayer:
-    def __init__(self, sg):
+    def __init__(self, sg, stop_kinds=None):
         self.sg = sg
+        self.stop_kinds = stop_kinds      # None: stop a history at its first divergence; else only at a divergence of these kinds
         nn = sg.nn
 
         class Box(nn.Module):
@@ -35,6 +36,10 @@ class ModReplayer:
         M += [self.Aff(i + 2, i + 1) for i in range(consts["NLeaf"])]
         P = [nn.Parameter(sg.Tensor(np.full((sz,), 1.5, dtype=np.float32), requires_grad=rg))
              for sz, rg in zip(consts["ParSizes"], consts["ParRg"])]
+        if consts.get("InitTree") == "block":
+            M[0].w = P[0]
+            M[0].fc = M[1]
+            M[1].w = P[1]
         self.compare(expected(0), M, P, div, "init")
         for i, call in enumerate(hist):
             a = call["a"]
@@ -74,7 +79,7 @@ class ModReplayer:
             n0 = len(div)
             ctxt = a + (":" + call["x"][0] + ":" + call["via"] if a == "setattr" else "")
             self.compare(expected(i + 1), M, P, div, ctxt)
-            if len(div) > n0:
+            if len(div) > n0 and (self.stop_kinds is None or any(d[0] in self.stop_kinds for d in div[n0:])):
                 break
         return div
 
